@@ -90,6 +90,7 @@ type Node struct {
 	Engine      *consensus.DPoVP
 	Self        *Deputy // identity used when this node acts (may be nil: plain validator, uses the outsider key)
 	Genesis     *types.Block
+	autoGenesis bool
 }
 
 // NewNode creates the data dir, writes genesis and starts the chain. self may be nil.
@@ -102,6 +103,15 @@ func NewNode(w *World, self *Deputy, deputyCount int) *Node {
 func (n *Node) open(fresh bool) {
 	n.BecomeSelf()
 	n.DB = store.NewChainDataBase(n.Dir)
+	if n.autoGenesis {
+		// main/node.getGenesis: no block of height 0 => set the genesis up
+		_, err := n.DB.GetBlockByHeight(0)
+		if err == store.ErrBlockNotExist {
+			fresh = true
+		} else if err != nil {
+			panic(fmt.Sprintf("can't get genesis block. err: %v", err))
+		}
+	}
 	if fresh {
 		n.Genesis = chain.SetupGenesisBlock(n.DB, n.World.Genesis())
 	}
@@ -216,3 +226,11 @@ func (n *Node) Insert(b *types.Block) error {
 }
 
 var _ = io.EOF
+
+// NewNodeAt creates (or, when the directory already holds a database, reopens) a node on the given data directory.
+// Like main/node it writes the genesis block exactly when the database has no block of height 0.
+func NewNodeAt(w *World, self *Deputy, deputyCount int, dir string) *Node {
+	n := &Node{World: w, Dir: dir, DeputyCount: deputyCount, Self: self, autoGenesis: true}
+	n.open(false)
+	return n
+}
